@@ -1,6 +1,6 @@
 (* The invariant of the hybrid-buffer LTS (Model/Buffer.v) and the helper lemmas used to show that
    every event preserves it (Proofs/BufferProofs.v). *)
-From SV Require Import Model.Common Model.FileWrite Model.Buffer Proofs.CommonFacts Proofs.FileWriteProofs.
+From SV Require Import Model.Common Model.FileWrite Model.Buffer Spec.BufferSpec Proofs.CommonFacts Proofs.FileWriteProofs.
 From Coq Require Import Lia ZifyBool ZifyN ZifyNat Sorting.Sorted.
 Ltac Zify.zify_post_hook ::= Z.div_mod_to_equations.
 
@@ -81,12 +81,6 @@ Proof.
 Qed.
 
 (* ---------- derived views of the state ---------- *)
-Definition acc_ids (g : ghost) : list name := map (fun t => fst (fst t)) (g_acc g).
-Definition entered (g : ghost) : list name := g_rec g ++ acc_ids g.
-Definition enq_ids (g : ghost) : list name := map (fun t => fst (fst t)) (filter (fun t => snd t) (g_acc g)).
-Definition offered_ids (g : ghost) : list name := map fst (filter (fun p => snd p) (g_proc g)).
-Definition taken (g : ghost) : list chunk := map fst (filter (fun p => snd p) (g_out g)).
-
 (* the chunk(s) the feeder holds, counted once *)
 Definition hand (p : fpc) : list chunk :=
   match p with
@@ -114,11 +108,6 @@ Definition main_loop (p : fpc) : bool :=
 Definition feeder_ids (p : fpc) : list name :=
   match p with FLoad c => [c_id c] | FPush c _ => [c_id c] | _ => [] end.
 
-(* the original content of a chunk of this generation: the bytes given to Accept, or the entry found at start-up *)
-Definition is_orig (g : ghost) (x : name) (e : entry) : Prop :=
-  (exists d b, In (x, d, b) (g_acc g) /\ e = EFile d) \/
-  (In x (g_rec g) /\ dir_get (g_init g) x = Some e).
-
 Definition wf_chunk (s : state) (c : chunk) : Prop :=
   match c_data c, c_saved c with
   | Some d, false => (exists b, In (c_id c, d, b) (g_acc (st_gh s))) /\ dir_get (st_dir s) (c_id c) = None
@@ -130,25 +119,12 @@ Definition wf_chunk (s : state) (c : chunk) : Prop :=
 Section Sizes.
 Variable dirsize : Z.
 
-Definition esize (e : option entry) : Z :=
-  match e with
-  | Some (EFile c) => Z.of_nat (length c)
-  | Some EDir => dirsize
-  | None => 0%Z
-  end.
-
-Fixpoint owned_sum (d : dirT) (l : list name) : Z :=
-  match l with
-  | [] => 0%Z
-  | x :: l' => (esize (dir_get d x) + owned_sum d l')%Z
-  end.
-
 (* ---------- owned_sum ---------- *)
-Lemma owned_sum_app : forall d l1 l2, owned_sum d (l1 ++ l2) = (owned_sum d l1 + owned_sum d l2)%Z.
+Lemma owned_sum_app : forall d l1 l2, owned_sum dirsize d (l1 ++ l2) = (owned_sum dirsize d l1 + owned_sum dirsize d l2)%Z.
 Proof. induction l1 as [|x l1 IH]; intros; cbn [owned_sum app]; [lia|]. rewrite IH. lia. Qed.
 
 Lemma owned_sum_ext : forall d d' l,
-  (forall x, In x l -> dir_get d' x = dir_get d x) -> owned_sum d' l = owned_sum d l.
+  (forall x, In x l -> dir_get d' x = dir_get d x) -> owned_sum dirsize d' l = owned_sum dirsize d l.
 Proof.
   induction l as [|x l IH]; intros H; cbn [owned_sum]; [reflexivity|].
   rewrite H by (left; reflexivity). rewrite IH; [reflexivity|]. intros y Hy. apply H. right. exact Hy.
@@ -157,7 +133,7 @@ Qed.
 Lemma owned_sum_change : forall d d' l x,
   NoDup l -> In x l ->
   (forall y, In y l -> y <> x -> dir_get d' y = dir_get d y) ->
-  owned_sum d' l = (owned_sum d l - esize (dir_get d x) + esize (dir_get d' x))%Z.
+  owned_sum dirsize d' l = (owned_sum dirsize d l - esize dirsize (dir_get d x) + esize dirsize (dir_get d' x))%Z.
 Proof.
   induction l as [|a l IH]; intros x Hnd Hin Hfr; [contradiction|].
   inversion Hnd as [|? ? Hnotin Hnd']; subst. cbn [owned_sum].
@@ -216,7 +192,8 @@ Record Inv (s : state) : Prop := {
   i_recsorted : StronglySorted name_lt (g_rec (st_gh s));
   i_acc_ever : forall x d b, In (x, d, b) (g_acc (st_gh s)) -> In (x, d) (st_ever s);
   i_rec_ever : forall x d e, In (x, d) (st_ever s) -> In x (g_rec (st_gh s)) ->
-                 dir_get (g_init (st_gh s)) x = Some e -> e = EFile d
+                 dir_get (g_init (st_gh s)) x = Some e -> e = EFile d;
+  i_rec_def : g_rec (st_gh s) = ids (firstn (st_Q s) (scan matchf (st_dirok s) (g_init (st_gh s))))
 }.
 
 Definition Good (s : state) : Prop := PInv s /\ (st_up s = true -> Inv s).
